@@ -30,7 +30,8 @@ DROPS = ['region ctor_phases: three statements of runConstructorChain in their s
          'the scope stack: beginScope / endScope move a ghost depth counter; m_env.back()["this"] = ... records the binding (ghost)',
          'std::shared_ptr<Object>(obj, no-op deleter) is the object identity']
 ASSUMPTIONS = ['the class table is acyclic with bases stored before derived classes (base index < class index): a finite conjunction over CMAX = 8 classes (object-size bound)',
-               'exec does not change the evaluator context (m_currentClassCtx, m_inDestructor, ...) other than m_hasReturn: its real body restores what it changes (not verified here)']
+               'exec does not change the evaluator context (m_currentClassCtx, m_inDestructor, ...) other than m_hasReturn: its real body restores what it changes (not verified here)',
+               'argumentsConversionCost returns, when it returns a cost at all, a value in [0, 1000000) (it adds at most a few units per argument; never INT_MAX, the initial value of bestCost)']
 
 
 class Profile(Lower):
@@ -549,6 +550,8 @@ typedef struct { bl_decl decl; bl_ptypes params; } CtorRow; CtorRow g_ctor[KMAX]
 bl_decl superCtorDecl;                     /* local of runConstructorChain that the region sets */
 int g_n_base, g_t_base, g_n_fields, g_t_fields; bl_clsid g_base_cls, g_fields_cls; bl_objid g_base_obj, g_fields_obj; bl_decl g_base_decl; _Bool g_base_raised, g_fields_raised;
 size_t g_cb_n;
+/* ghost: the cheapest applicable base constructor (first of the cheapest), computed next to the code's own choice */
+_Bool g_min_has; int g_min_cost; size_t g_min_idx, g_min_cnt; bl_decl g_min_decl;
 #ifndef NATIVE
 unsigned __CPROVER_uninterpreted_cls_nctors(bl_clsid); unsigned __CPROVER_uninterpreted_cls_ctor(bl_clsid, size_t); int __CPROVER_uninterpreted_ptypes_empty(bl_ptypes);
 int __CPROVER_uninterpreted_cost_has(bl_ptypes); int __CPROVER_uninterpreted_cost_v(bl_ptypes); int __CPROVER_uninterpreted_decl_line(bl_decl); int __CPROVER_uninterpreted_decl_column(bl_decl);
@@ -557,7 +560,7 @@ int __CPROVER_uninterpreted_cost_has(bl_ptypes); int __CPROVER_uninterpreted_cos
 #define PTYPES_EMPTY(p) (__CPROVER_uninterpreted_ptypes_empty(p) != 0)
 #define DECL_LINE(d) __CPROVER_uninterpreted_decl_line(d)
 #define DECL_COLUMN(d) __CPROVER_uninterpreted_decl_column(d)
-static inline opt_int objm_argumentsConversionCost(bl_ptypes p) { opt_int r; r.has = __CPROVER_uninterpreted_cost_has(p) != 0; r.v = __CPROVER_uninterpreted_cost_v(p); return r; }
+static inline opt_int objm_argumentsConversionCost(bl_ptypes p) { opt_int r; r.has = __CPROVER_uninterpreted_cost_has(p) != 0; r.v = (int)((unsigned)__CPROVER_uninterpreted_cost_v(p) % 1000000u); return r; }
 static inline void objm_rec_runConstructorChain(bl_clsid c, bl_objid o, bl_decl d) {
   if (g_pclock < 1000000) g_pclock = g_pclock + 1;
   if (g_n_base == 0) { g_t_base = g_pclock; g_base_cls = c; g_base_obj = o; g_base_decl = d; }
@@ -650,7 +653,7 @@ CONTRACTS['exec_block'] = {
                   'invariants': [('exec_block.loop.bounds', 'bl_i0 <= g_blk_n')],
                   'decreases': 'g_blk_n - bl_i0'}},
 }
-PH = 'g_n_base, g_t_base, g_n_fields, g_t_fields, g_base_cls, g_fields_cls, g_base_obj, g_fields_obj, g_base_decl, g_base_raised, g_fields_raised, superCtorDecl, g_cb_n, bl_exc, bl_exc_line, bl_exc_col'
+PH = 'g_n_base, g_t_base, g_n_fields, g_t_fields, g_base_cls, g_fields_cls, g_base_obj, g_fields_obj, g_base_decl, g_base_raised, g_fields_raised, superCtorDecl, g_cb_n, g_min_has, g_min_cost, g_min_idx, g_min_cnt, g_min_decl, bl_exc, bl_exc_line, bl_exc_col'
 FIRST_BODY = 'BODY_STMT(DECL_BODY(ctor), (size_t)(hasExplicitSuper ? 1 : 0))'
 CONTRACTS['ctor_phases'] = {
     'contract': [
@@ -663,13 +666,18 @@ CONTRACTS['ctor_phases'] = {
         E('construction.field_initialisers_once_before_the_body', '(bl_exc == 0) ==> (g_n_fields == 1 && g_fields_cls == cls && g_fields_obj == obj && (g_exec_n > 0 ==> g_t_fields < g_exec_first_t))', ['C08']),
         E('construction.body_starts_after_the_explicit_super_statement', '(bl_exc == 0 && g_exec_n > 0) ==> (ctor != 0 && g_exec_first_stmt == ' + FIRST_BODY + ')', ['C08']),
         E('construction.body_runs_when_there_is_one', '(bl_exc == 0 && ctor != 0 && DECL_BODY(ctor) != 0 && BODY_NSTMTS(DECL_BODY(ctor)) > (size_t)(hasExplicitSuper ? 1 : 0)) ==> g_exec_n > 0', ['C08']),
+        # C08 (overloads): an explicit super(args) runs the applicable base constructor of lowest conversion cost; a tie is an error
+        E('construction.explicit_super_runs_the_cheapest_applicable_base_constructor', '(bl_exc == 0 && g_cls[cls].base != 0 && hasExplicitSuper) ==> (g_min_has && g_min_cnt == 1 && g_n_base == 1 && g_base_decl == g_min_decl)', ['C08']),
+        E('construction.explicit_super_without_an_applicable_or_with_two_cheapest_constructors_fails', '(g_cls[cls].base != 0 && hasExplicitSuper && (!g_min_has || g_min_cnt != 1)) ==> bl_exc != 0', ['C08']),
         E('construction.failed_base_chain_stops_construction', 'g_base_raised ==> (g_n_fields == 0 && g_exec_n == 0 && bl_exc != 0)', ['C08']),
         E('construction.failed_field_initialiser_stops_construction', 'g_fields_raised ==> (g_exec_n == 0 && bl_exc != 0)', ['C08']),
     ],
     'loops': {
-        0: {'assigns': 'bl_i0, bestCost, superCtorDecl, matchedSuperCtor, ambiguousSuperCtor',
-            'before': 'g_cb_n = CLS_NCTORS(g_cls[cls].base);',
-            'invariants': [('ctor_phases.explicit.bounds', 'bl_i0 <= g_cb_n')], 'decreases': 'g_cb_n - bl_i0'},
+        0: {'assigns': 'bl_i0, bestCost, superCtorDecl, matchedSuperCtor, ambiguousSuperCtor, g_min_has, g_min_cost, g_min_idx, g_min_cnt, g_min_decl',
+            'before': 'g_cb_n = CLS_NCTORS(g_cls[cls].base);', 'ghost_in_bounded': True,
+            'invariants': [('ctor_phases.explicit.bounds', 'bl_i0 <= g_cb_n'),
+                           ('ctor_phases.explicit.choice_is_the_cheapest_so_far', '(matchedSuperCtor != 0) == (g_min_has != 0) && (g_min_has ==> (g_min_cost == bestCost && g_min_idx < bl_i0 && g_min_cnt >= 1 && superCtorDecl == g_min_decl && (ambiguousSuperCtor != 0) == (g_min_cnt != 1))) && (!g_min_has ==> (bestCost == 2147483647 && g_min_cnt == 0))')],
+            'decreases': 'g_cb_n - bl_i0'},
         1: {'assigns': 'bl_i1, superCtorDecl, zeroArgMatches',
             'before': 'g_cb_n = CLS_NCTORS(g_cls[cls].base);',
             'invariants': [('ctor_phases.implicit.bounds', 'bl_i1 <= g_cb_n && zeroArgMatches >= 0 && (size_t)zeroArgMatches <= bl_i1')], 'decreases': 'g_cb_n - bl_i1'},
@@ -681,7 +689,9 @@ CONTRACTS['ctor_phases'] = {
                            ('ctor_phases.body.clock', 'g_t_fields <= g_pclock')],
             'decreases': '(g_cb_n > i) ? g_cb_n - i : 0'},
     },
-    'prologue': 'g_first_body = ' + FIRST_BODY + ';',
+    'prologue': 'g_first_body = ' + FIRST_BODY + '; g_min_has = 0; g_min_cost = 0; g_min_idx = 0; g_min_cnt = 0; g_min_decl = 0;',
+    # the specification's own choice, kept next to the code's: first index of minimal cost, and how many constructors have that cost
+    'after_decl': {'cost': 'if (cost.has) { if (!g_min_has || cost.v < g_min_cost) { g_min_has = 1; g_min_cost = cost.v; g_min_idx = bl_i0; g_min_cnt = 1; g_min_decl = g_ctor[c].decl; } else if (cost.v == g_min_cost && g_min_cnt < 1000) { g_min_cnt = g_min_cnt + 1; } }'},
 }
 CONTRACTS['member_dispatch'] = {
     'contract': [
